@@ -169,4 +169,30 @@ theorem c06_22_timeouts : Const.T22.T1 ≤ 1250000 ∧ Const.T22.T2 ≤ 1250000 
     Const.T22.T5 = 3000000 := by
   decide
 
+/-! ### the thread is told about every new deadline -/
+
+/-- EVERY NEW SESSION WAKES THE THREAD (J1939-21): a multi-packet send that is accepted — broadcast or connection mode —
+    asks for a background pass, so the deadline it armed (BAM interval, T3 for the CTS) is known to a thread that was
+    asleep: the give-up bound counts from the frame, not from the thread's next idle wake-up -/
+theorem c06_send_wakes (cfg : Dll21.Cfg) (s : Dll21.St) (now dp pf ps prio sa : Nat) (data : List Nat) (hl : 8 < data.length)
+    (hacc : (Dll21.sendPgn cfg s now dp pf ps prio sa data).2 = true) :
+    Dll21.Out.wake ∈ (Dll21.sendPgn cfg s now dp pf ps prio sa data).1.outs := by
+  have hl' : ¬ data.length ≤ 8 := by omega
+  unfold Dll21.sendPgn at hacc ⊢
+  simp only [hl', if_false] at hacc ⊢
+  repeat' split
+  all_goals simp_all
+
+/-- … and on J1939-22: an accepted transport send (more than 60 bytes) asks for a pass -/
+theorem c06_22_send_wakes (cfg : Dll22.Cfg) (s : Dll22.St) (now dp pf ps prio sa : Nat) (data : List Nat) (tl ff : Nat)
+    (hl : 60 < data.length) (hacc : (Dll22.sendPgn cfg s now dp pf ps prio sa data tl ff).2 = true) :
+    Dll22.Out.wake ∈ (Dll22.sendPgn cfg s now dp pf ps prio sa data tl ff).1.outs := by
+  have hl' : ¬ data.length ≤ Const.DL22.TP := by
+    have : Const.DL22.TP = 60 := rfl
+    omega
+  unfold Dll22.sendPgn at hacc ⊢
+  simp only [hl', if_false] at hacc ⊢
+  repeat' split
+  all_goals simp_all
+
 end J1939.Props.C06
